@@ -512,3 +512,121 @@ func TestFrozenSamples(t *testing.T) {
 }
 
 var _ = rfl.Diff
+
+// ---- several frames on one client, with the default license changing in between -----------------------
+
+type SeqStep struct {
+	Pack       gpack.Case `json:"pack"`
+	SetLicense string     `json:"set_license,omitempty"` // hex; non-empty: the client's default license is changed before this send
+	Override   string     `json:"override,omitempty"`    // hex; per-send license
+}
+
+type SeqCase struct {
+	License string    `json:"license"` // initial default (hex)
+	Steps   []SeqStep `json:"steps"`
+}
+
+func runFrameSeq(c SeqCase) *pbt.Result {
+	ln, err := net.Listen("tcp", "127.0.0.1:0")
+	if err != nil {
+		return pbt.Fail("harness cannot listen on loopback: %v", err)
+	}
+	defer ln.Close()
+	cur := string(gen.UnHex(c.License))
+	cl := oneway.NewForVerif(oneway.WithServers([]string{ln.Addr().String()}), oneway.WithLicense(cur), oneway.WithPcode(5))
+	defer cl.Close()
+	var want []byte
+	type rcv struct {
+		b   []byte
+		err error
+	}
+	connCh := make(chan net.Conn, 1)
+	go func() {
+		conn, err := ln.Accept()
+		if err == nil {
+			connCh <- conn
+		}
+	}()
+	changes := 0
+	for i, st := range c.Steps {
+		gpack.ResetAux()
+		p, recs := build(st.Pack)
+		body := refBody(p, recs)
+		if st.SetLicense != "" {
+			cur = string(gen.UnHex(st.SetLicense))
+			cl.License = cur
+			changes++
+		}
+		eff := cur
+		var serr error
+		if st.Override != "" {
+			eff = string(gen.UnHex(st.Override))
+			serr = cl.Send(p, wnet.WithLicense(eff))
+		} else {
+			serr = cl.Send(p)
+		}
+		if serr != nil {
+			return pbt.Fail("send %d on a healthy loopback connection returned %v", i, serr)
+		}
+		w := ref.NewW()
+		w.I16(p.GetPackType())
+		w.Raw(body)
+		want = append(want, ref.Frame(10, 0, p.GetPCODE(), ref.Hash64([]byte(eff)), w.B)...)
+	}
+	var conn net.Conn
+	select {
+	case conn = <-connCh:
+	case <-time.After(20 * time.Second):
+		return pbt.Fail("the client never connected")
+	}
+	defer conn.Close()
+	conn.SetReadDeadline(time.Now().Add(30 * time.Second))
+	got := make([]byte, len(want))
+	if _, err := io.ReadFull(conn, got); err != nil {
+		return pbt.Fail("peer received fewer than the %d bytes of the %d reference frames: %v", len(want), len(c.Steps), err)
+	}
+	if !bytes.Equal(got, want) {
+		k := 0
+		for k < len(want) && got[k] == want[k] {
+			k++
+		}
+		// which frame?
+		off, fi := 0, 0
+		for fi = 0; fi < len(c.Steps); fi++ {
+			n := 22 + int(int32(uint32(want[off+18])<<24|uint32(want[off+19])<<16|uint32(want[off+20])<<8|uint32(want[off+21])))
+			if k < off+n {
+				break
+			}
+			off += n
+		}
+		return pbt.Fail("frame %d of the sequence differs from the reference at byte %d of the frame (bytes 2..9 project code, 10..17 hash of the license in effect for that send, 18..21 length)", fi, k-off)
+	}
+	return &pbt.Result{NT: changes >= 1 && len(c.Steps) >= 2, Classes: []string{fmt.Sprintf("license-changes=%d", changes), fmt.Sprintf("frames=%d", len(c.Steps))}, Key: want}
+}
+
+var specFrameSeq = pbt.Register(pbt.Spec[SeqCase]{
+	Prop: "C05", Name: "frame-sequence",
+	Rule:  "2-6 packs sent one after the other by ONE client over one connection, with the client's default license changed between sends in some steps and per-send licenses in others; the byte stream received must be the concatenation of the reference frames, each carrying the hash of the license in effect for that send; non-trivial = at least one license change and two frames; distinct by stream bytes",
+	Quick: 160, Thorough: 5000,
+	Draw: func(t *rapid.T) SeqCase {
+		lic := func(label string) string {
+			return gen.Hex([]byte(rapid.OneOf(rapid.SampledFrom(licenses[1:]), rapid.StringN(1, 20, 100)).Draw(t, label)))
+		}
+		c := SeqCase{License: lic("license")}
+		n := rapid.IntRange(2, 6).Draw(t, "n")
+		for i := 0; i < n; i++ {
+			st := SeqStep{Pack: gpack.Case{Type: rapid.SampledFrom(bodyTypes).Draw(t, "type"), Seed: rapid.Uint64().Draw(t, "seed"), Len: rapid.SampledFrom([]int{0, 30, 300}).Draw(t, "len")}}
+			switch rapid.IntRange(0, 3).Draw(t, "kind") {
+			case 0:
+				st.SetLicense = lic("newdefault")
+			case 1:
+				st.Override = lic("override")
+			}
+			c.Steps = append(c.Steps, st)
+		}
+		return c
+	},
+	Run: runFrameSeq,
+})
+
+func TestFrameSequence(t *testing.T) { specFrameSeq.Check(t) }
